@@ -104,6 +104,13 @@ pub fn check(
     expected: &[(&str, &str, &str, &str)],
     expected_sg: &[(&str, &str)],
 ) {
+    // the property says which items an entry CONTAINS, not in which order they are written: both
+    // lists are compared sorted (name, kind, unit, value)
+    let mut got = got;
+    got.0.sort_by(|a, b| (&a.name, &a.kind, &a.unit, &a.value).cmp(&(&b.name, &b.kind, &b.unit, &b.value)));
+    let mut expected: Vec<(&str, &str, &str, &str)> = expected.to_vec();
+    expected.sort_by(|a, b| (a.0, a.1, a.3, a.2).cmp(&(b.0, b.1, b.3, b.2)));
+    let expected = &expected[..];
     let items_ok = got.0.len() == expected.len() && got.0.iter().zip(expected).all(|(a, b)| same(a, b));
     let mut gsg: Vec<(String, String)> = got.1.clone();
     let mut esg: Vec<(String, String)> = expected_sg.iter().map(|(a, b)| (a.to_string(), b.to_string())).collect();
@@ -130,5 +137,19 @@ pub fn check(
             gs.join(","),
             es.join(",")
         );
+    }
+}
+
+
+/// runs one root; a panic inside the generated close / write code is reported for that root only
+pub fn guard(root: &str, f: fn()) {
+    let r = std::panic::catch_unwind(f);
+    if let Err(e) = r {
+        let msg = e
+            .downcast_ref::<String>()
+            .cloned()
+            .or_else(|| e.downcast_ref::<&str>().map(|s| s.to_string()))
+            .unwrap_or_else(|| "<non-string panic>".into());
+        println!("C07 MISMATCH {root} {{\"panic\":\"{}\"}}", esc(&msg));
     }
 }
